@@ -16,8 +16,9 @@
 #include "vtrace.h"
 
 static int in_api; static volatile long nsig;
-typedef struct { char call[24]; } PlanE; static PlanE plan[32]; static int nplan, iplan;
-static int want_inject (const char *call) { if (in_api && iplan < nplan && !strcmp (plan[iplan].call, call)) { iplan++; return 1; } return 0; }
+typedef struct { char call[24]; int pass; } PlanE; static PlanE plan[32]; static int nplan, iplan;
+/* plan entries are consumed by the invocations of the call they name, in order: "call:EINTR" interrupts that invocation, "call:OK" lets it through */
+static int want_inject (const char *call) { if (in_api && iplan < nplan && !strcmp (plan[iplan].call, call)) { return !plan[iplan++].pass; } return 0; }
 static void sysev (const char *call, int eintr, int inj) { if (in_api) vt_emit ("{\"e\":\"isys\",\"call\":\"%s\",\"eintr\":%d,\"inj\":%d}", call, eintr, inj); }
 int __real_clock_nanosleep (clockid_t, int, const struct timespec *, struct timespec *);
 int __wrap_clock_nanosleep (clockid_t c, int f, const struct timespec *rq, struct timespec *rm) {
@@ -83,7 +84,7 @@ int main (int argc, char **argv) {
 			char *tok, *save, *pl = strchr (line, ' '); nplan = iplan = 0;
 			if (!pl) continue;
 			pl[strcspn (pl, "\n")] = 0;
-			for (tok = strtok_r (pl + 1, ",", &save); tok && nplan < 32; tok = strtok_r (NULL, ",", &save)) { char *c = strchr (tok, ':'); if (c) *c = 0; snprintf (plan[nplan++].call, 24, "%s", tok); }
+			for (tok = strtok_r (pl + 1, ",", &save); tok && nplan < 32; tok = strtok_r (NULL, ",", &save)) { char *c = strchr (tok, ':'); if (c) *c = 0; plan[nplan].pass = c && !strcmp (c + 1, "OK"); snprintf (plan[nplan++].call, 24, "%s", tok); }
 			continue;
 		}
 		if (!strcmp (op, "units")) { vt_emit ("{\"e\":\"units\",\"v\":%ld}", a); continue; }
@@ -93,6 +94,18 @@ int main (int argc, char **argv) {
 		in_api = 1; t0 = now_ms ();
 		if (!strcmp (op, "sleep")) { pint r = p_uthread_sleep ((puint32) a); in_api = 0; vt_emit ("{\"e\":\"iret\",\"op\":\"sleep\",\"res\":%d,\"elapsed\":%ld,\"val\":0,\"nsig\":%ld}", (int) r, (long) (now_ms () - t0), nsig); }
 		else if (!strcmp (op, "semnew")) { last_sem = NULL; sem = p_semaphore_new (name, (pint) a, P_SEM_ACCESS_CREATE, NULL); semraw = last_sem; in_api = 0; vt_emit ("{\"e\":\"iret\",\"op\":\"semnew\",\"res\":%d,\"elapsed\":0,\"val\":%ld,\"nsig\":%ld}", sem ? 1 : 0, a, nsig); }
+		else if (!strcmp (op, "semopen") || !strcmp (op, "semcreate")) {      /* a second handle on the name that exists already */
+			PSemaphore *s2; sem_t *raw2;
+			last_sem = NULL; s2 = p_semaphore_new (name, (pint) a, op[3] == 'o' ? P_SEM_ACCESS_OPEN : P_SEM_ACCESS_CREATE, NULL); raw2 = last_sem; in_api = 0;
+			if (s2 && op[3] != 'o') semraw = raw2;
+			vt_emit ("{\"e\":\"iret\",\"op\":\"%s\",\"res\":%d,\"elapsed\":0,\"val\":%ld,\"nsig\":%ld}", op, s2 ? 1 : 0, a, nsig);
+			if (s2) { if (op[3] == 'o') p_semaphore_free (s2); else { if (sem) p_semaphore_free (sem); sem = s2; } }
+		}
+		else if (!strcmp (op, "shmopen")) {
+			PShm *s2 = p_shm_new (name, (psize) a, P_SHM_ACCESS_READWRITE, NULL); in_api = 0;
+			vt_emit ("{\"e\":\"iret\",\"op\":\"shmopen\",\"res\":%d,\"elapsed\":0,\"val\":0,\"nsig\":%ld}", s2 ? 1 : 0, nsig);
+			if (s2) p_shm_free (s2);
+		}
 		else if (!strcmp (op, "acquire")) { pboolean r = p_semaphore_acquire (sem, NULL); int v = -1; in_api = 0; if (semraw) sem_getvalue (semraw, &v); vt_emit ("{\"e\":\"iret\",\"op\":\"acquire\",\"res\":%d,\"elapsed\":%ld,\"val\":%d,\"nsig\":%ld}", r ? 1 : 0, (long) (now_ms () - t0), v, nsig); }
 		else if (!strcmp (op, "release")) { pboolean r = p_semaphore_release (sem, NULL); in_api = 0; vt_emit ("{\"e\":\"iret\",\"op\":\"release\",\"res\":%d,\"elapsed\":0,\"val\":0,\"nsig\":%ld}", r ? 1 : 0, nsig); }
 		else if (!strcmp (op, "semfree")) { p_semaphore_take_ownership (sem); p_semaphore_free (sem); sem = NULL; in_api = 0; vt_emit ("{\"e\":\"iret\",\"op\":\"semfree\",\"res\":1,\"elapsed\":0,\"val\":0,\"nsig\":%ld}", nsig); }
